@@ -279,6 +279,9 @@ def check_approx(prop, tier, seed):
             return  # leaves with a violated obligation go to the counterexample replay, not to translation validation
         if 'ret' in rec and (rec['path'] % 5 == 0 or rec['depth'] == 0) and len(leaves_for_tv) < 60000:
             leaves_for_tv.append(rec)
+        if 'retained_set' in rec and (rec['path'] % 3 == 0 or rec['depth'] == 0) and len(leaves_sp) < 60000:
+            leaves_sp.append(rec)
+    leaves_sp = []
     s, log = run_harness(h, cases, prop + '-' + tier, timeout=budget)
     agg.add_summary(s)
     agg.witness_hits = ws.get('witness_hits', 0)
@@ -308,6 +311,30 @@ def check_approx(prop, tier, seed):
                 continue
             if o.get('crashed') or o['N'] != int(rec['N']):
                 out.fault = 'translation validation: real double build disagrees with symbolic leaf %s: %s' % (rec.get('case'), json.dumps(o)[:300])
+                break
+            nvalid += 1
+    if not out.fault and prop == 'C15':
+        # translation validation of the spanner: the real double build (guarded accessors) must retain exactly the same edges
+        r_misc = build('replay/r_misc.cpp', 'real')
+        r = rng(seed)
+        r.shuffle(leaves_sp)
+        lines, meta = [], []
+        for rec in leaves_sp[:(48 if tier == 'quick' else 1500)]:
+            weights, den = instance_weights(rec, rec['model'])
+            if max(weights + [0]) > 2 ** 40:
+                continue
+            lines.append('what=spanner k=%s n=%s edges=%s weights=%s%s' % (rec['k'], rec['n'], rec['edges'], ','.join(map(str, weights)),
+                                                                           (' order=' + rec['order']) if rec.get('order') else ''))
+            meta.append(rec)
+        for rec, o, line in zip(meta, run_replayer_batch(r_misc, lines), lines):
+            if o.get('crashed'):
+                out.fault = 'translation validation: real spanner construction crashed on %s' % line
+                break
+            if not (o['weights_ok'] and o['endpoints_ok'] and o['girth_ok'] and o['stretch_ok'] and o['partition_ok']):
+                real_violation(out, prop, line, o, 'spanner/k=%s/%s' % (rec['k'], rec['edges']), 'the real spanner violates C15 on a leaf model')
+                continue
+            if o['retained'] != sorted(rec['retained_set']):
+                out.fault = 'translation validation: real spanner keeps %s, symbolic leaf predicted %s (%s)' % (o['retained'], rec['retained_set'], line)
                 break
             nvalid += 1
     if not out.fault:
